@@ -285,6 +285,14 @@ Base(b) ==
                                          Pkg(PkgNames[2], << File("a", << Import(PkgNames[1], "alias", DeclNames[1][2].src, "") >>,
                                               << ObjectDecl(DeclNames[1][1],
                                                    << Plain(FieldNames[1], Ref("object", PkgNames[1], <<DeclNames[1][1].src>>, DeclNames[1][2].src, "qual")) >>) >>) >>) >>]
+      \* source files with dots in their names (orders.api.j5s / orders.events.j5s): the generated service / topic files are
+      \* named after the whole file name; file x.a has a service and a topic, file x.b gets its own by an append
+      [] b = "dotfiles" -> [pkgs |-> << Pkg(PkgNames[1], << File("x.a", <<>>,
+                            << ObjectDecl(DeclNames[1][1], <<MinField(1)>>),
+                               ServiceDecl(DeclNames[1][2], "/" \o ShortOf(PkgNames[1]) \o "/v1",
+                                  << Method(MethodName(DeclNames[1][2], 1), "GET", <<Lit("things")>>, <<>>, TRUE, <<>>) >>),
+                               TopicDecl(DeclNames[1][3], "publish", <<Message(MessageName(DeclNames[1][3], 1), <<>>)>>) >>),
+                            File("x.b", <<>>, << ObjectDecl(DeclNames[2][1], <<>>) >>) >>) >>]
       \* file-path import (T: protobuild TestImportProtoToJ5Other, README "Packages and Imports")
       [] b = "twopkgfile" -> [pkgs |-> << Pkg(PkgNames[1], << TargetFile("a", 1) >>),
                                        Pkg(PkgNames[2], << File("a", << Import(PkgNames[1], "file", "", "a") >>,
@@ -543,7 +551,7 @@ EnumOptionChoices(n) == {[e |-> OptionNames[n + 1], rich |-> 0, label |-> ""]}
 \* R "Services": basePath, method, httpMethod, httpPath, request (required), response (optional: P file.proto APIMethod.response
 \* "when empty indicates a raw http response"); ":param" path segments name request fields (j5convert/service.go, proto/**/*.j5s)
 Verbs == {"GET", "POST", "PUT", "PATCH", "DELETE"}       \* P j5.client.v1.HTTPMethod
-PathShapes == {"lit", "param", "lit-param", "param-lit", "two-params", "camel-param", "snake-param", "digit-param"}
+PathShapes == {"lit", "param", "lit-param", "param-lit", "two-params", "camel-param", "snake-param", "digit-param", "param-prefix-field"}
 PathOf(shape) ==
     \* pd: a digit is a word boundary of the snake-caser (line1 -> line_1), as in address1 / sha256
     LET pa == Name(<<"foo", "id">>, "camel") pb == Name(<<"bar", "id">>, "snake") px == Name(<<"x">>, "camel") pd == Name(<<"line", "1">>, "camel") IN
@@ -555,6 +563,9 @@ PathOf(shape) ==
       [] shape = "camel-param" -> [segs |-> <<Lit("things"), Param(pa)>>, params |-> <<pa>>]
       [] shape = "snake-param" -> [segs |-> <<Lit("things"), Param(pb)>>, params |-> <<pb>>]
       [] shape = "digit-param" -> [segs |-> <<Lit("things"), Param(pd)>>, params |-> <<pd>>]
+      \* the request also has a field whose name is a proper prefix of the parameter's (foo / fooId): only whole path
+      \* segments are parameters (the extra field is the second entry of `params`, see ParamFields: every entry is a field)
+      [] shape = "param-prefix-field" -> [segs |-> <<Lit("things"), Param(pa)>>, params |-> <<pa, Name(<<"foo">>, "camel")>>]
 ParamFields(ps) == [i \in Idx(ps) |-> Plain(ps[i], Scalar("string"))]
 MethodChoices(svc, n) ==
     LET owner == svc.name
@@ -565,7 +576,7 @@ MethodChoices(svc, n) ==
     \cup { [e |-> Method(nm, v, PathOf(sh).segs, ParamFields(withBase(PathOf(sh).params)), rs, <<>>), rich |-> 1,
             label |-> "method-" \o v \o "/" \o sh \o (IF rs THEN "" ELSE "/no-response")]
            : v \in (IF Breadth = "full" THEN Verbs ELSE {"GET", "POST"}),
-             sh \in (IF Breadth = "full" THEN PathShapes ELSE {"lit", "two-params", "digit-param"}), rs \in BOOLEAN }
+             sh \in (IF Breadth = "full" THEN PathShapes ELSE {"lit", "two-params", "digit-param", "param-prefix-field"}), rs \in BOOLEAN }
 
 \* R "Publish": one or more message blocks
 TopicMessageChoices(owner, n) == {[e |-> Message(MessageName(owner, n + 1), <<>>), rich |-> 0, label |-> ""]}
